@@ -12,8 +12,8 @@ import KyupyVerif.Gen.Tables
 * dump   = canonical dump of `harness/circ.py: dump_net` (`nodes ; lines ; io`, blanks allowed)
 Answer: `<pippi_s_locs>;<poppo_s_locs>;<ppio_s_locs>;<s0>;<s1>` after `cycleKA k` (Model/Cycle.lean), rows in the input format.
 
-`cyclecert <c_locs csv> <dump...>` — the decidable side conditions of C01 `cycle_on_memory` on the real table:
-`outs=<stateOutsB> zero=<zeroCapB>`. -/
+`cyclecert <order> <c_locs csv> <dump...>` — the decidable side conditions of C01 `cycle_on_memory` (on the real table) and
+`cycle_strip_irrelevant` (on the real order): `outs=<stateOutsB> zero=<zeroCapB> cap=<capDriversB>`. -/
 namespace KV.Drv.Cycle
 open KV KV.Sig KV.Cycle
 
@@ -99,12 +99,12 @@ def handle (cmd : String) (args : List String) : Option String :=
       else runLanes sem8 merge8 V3.zero V3.ofCode V3.code ops T n k r0 r1
     some s!"{showNats (T.pippi.map (·.1))};{showNats (T.poppo.map (·.1))};{showNats T.ppio};{rows}"
   | "cycle", _ => some "bad-args"
-  | "cyclecert", locs :: dump =>
+  | "cyclecert", order :: locs :: dump =>
     -- side conditions of C01 `cycle_on_memory` on the real `c_locs`
     let net := parseNet (" ".intercalate dump)
     let p : MapIn := { net := net, strip := false, ops := [], starts := [], caps := #[], cLen := 0, capsMin := 1,
                        locs := ((locs.splitOn ",").filter (· ≠ "") |>.map String.toInt!).toArray }
-    some s!"outs={if stateOutsB net then 1 else 0} zero={if zeroCapB p then 1 else 0}"
+    some s!"outs={if stateOutsB net then 1 else 0} zero={if zeroCapB p then 1 else 0} cap={if capDriversB net (parseNats (if order == "~" then "" else order)) then 1 else 0}"
   | _, _ => none
 
 end KV.Drv.Cycle
